@@ -23,7 +23,7 @@ from .c12 import World as C12World
 
 ID = "C13"
 LEVEL = "exploration"
-RUNS = {"quick": 2000, "thorough": 40000}
+RUNS = {"quick": 8000, "thorough": 100000}
 RULE = (
     "each run: a BinaryTrie with a seeded history of 6-40 mutations (every root and its contents remembered) and 10-40 "
     "exchanges at seeded points: get_branch for a stored / absent / prefix / extension key at the current or an older "
